@@ -164,8 +164,13 @@ class Gen:
             if o == "cancel":
                 sc["outcome"] = "stop"
             sc["payload"] = json.dumps(gen_json_value(rng))
-            if rng.random() < 0.2:
+            r_ = rng.random()
+            if r_ < 0.2:
                 sc["payload"] = None
+            elif r_ < 0.35:
+                # results come in all sizes: a document of 1 KB .. 70 KB that parses to a container
+                pad = "p" * rng.choice([1100, 5000, 70_000])
+                sc["payload"] = json.dumps(rng.choice([{"k": [1, 2], "pad": pad}, [pad, {"n": 1}]]))
         else:
             sc["payload"] = rng.choice(['"s"', "plain text", "{\"a\": 1}", "", "42", None])
         if o != "succeed":
@@ -464,4 +469,6 @@ def gen_sched(rng, prof):
         s["lines"] = True
         s["p_line"] = rng.choice([0.005, 0.02, 0.1])
         s["stall_hot"] = rng.choice([0.0, 0.01, 0.03, 0.1])
+        if rng.random() < 0.5:
+            s["focus"] = rng.randrange(8)  # one more class of SDK functions is a pre-emption hot spot in this case
     return s
